@@ -3,6 +3,7 @@
 package hmirror
 
 import (
+	"encoding/json"
 	"fmt"
 	"strconv"
 	"strings"
@@ -64,7 +65,7 @@ func runNode(events []string, props []string, args map[string]string) (res vx.Re
 	w := newWorld()
 	w.exclKey = nodeKey
 	n := newNode(w, nodeKey, "n")
-	s := &sys{w: w, eng: n, st: &n.st.stores, rhr: n.rhr}
+	s := &sys{w: w, eng: n, st: &n.st.stores, rhr: n.rhr, recrash: -1}
 	s.sm.acted = map[string]bool{}
 	n.sys = s
 	o := newOracles(s, &res, props)
@@ -80,6 +81,8 @@ func runNode(events []string, props []string, args map[string]string) (res vx.Re
 	before := s.snapshot()
 	o.afterStep(before, before, applied{ev: "init"})
 	mon.check()
+	var writesAfter []int
+	writesAfter = append(writesAfter, s.st.f.writes)
 	for i, ev := range events {
 		s.step = i
 		n.step = i
@@ -112,6 +115,7 @@ func runNode(events []string, props []string, args map[string]string) (res vx.Re
 			break
 		}
 		res.Keys = append(res.Keys, vx.ShortHash(s.key(after) + mon.key())[:12])
+		writesAfter = append(writesAfter, s.st.f.writes)
 		before = after
 	}
 	s.step = len(events)
@@ -122,10 +126,20 @@ func runNode(events []string, props []string, args map[string]string) (res vx.Re
 	o.afterStep(before, final, applied{ev: "final"})
 	mon.check()
 	mon.final()
+	if o.on["C09"] {
+		ph, vote := s.witnessed(events)
+		checkMappers(&res, ph, vote)
+		for k := range ph {
+			res.Count("witnessed_ph_result:"+k, 1)
+		}
+		for k := range vote {
+			res.Count("witnessed_vote_result:"+k, 1)
+		}
+	}
 
 	res.Key = s.key(final) + mon.key()
-	res.Keys = append(res.Keys, endKey(final))
 	res.Trace = events
+	res.Obs, _ = json.Marshal(map[string]any{"end": endKey(final) + fmt.Sprintf(" | sm %d/%d fin=%d", mon.smH, mon.smR, len(mon.finSaved)), "writes": writesAfter, "crashed": n.restarts})
 	res.Outcome = fmt.Sprintf("V%d/%d C%d hdrs%d sm%d/%d r%d", final.voting.Height, final.voting.Round, final.committing.Height, len(final.headers), n.curH, n.curR, n.restarts)
 	res.NonTrivial = len(final.headers) > 0 || mon.signed > 0
 	if args["results"] == "1" {
